@@ -12,6 +12,11 @@ import (
 
 func secs(d time.Duration) int64 { return int64(d / time.Second) }
 
+func faultsSoFar() int {
+	return vx.Faulted("ext", "meta.Load") + vx.Faulted("ext", "meta.LoadLatest") + vx.Faulted("ext", "meta.Store") +
+		vx.Faulted("ext", "kms.EncryptKey") + vx.Faulted("ext", "kms.DecryptKey")
+}
+
 // Expiry: one long-lived session encrypts N times at arbitrary non-decreasing instants.
 func Expiry() {
 	e := env.New()
@@ -54,9 +59,29 @@ func Expiry() {
 		ts, tn := vx.Now()
 		vx.ClockFreeze(freeze)
 		w0 := len(e.Store.Written)
+		// faults=F: up to F metastore reads / KMS calls of this encrypt fail ("when the metastore accepts writes":
+		// a call in which an insert was made to fail is outside the property); a faulted encrypt may return an error,
+		// one that hands out a record is held to the same obligations
+		F := vx.Param("faults")
+		fb := faultsSoFar()
+		sb := vx.Faulted("ext", "meta.Store")
+		if F > 0 {
+			vx.FaultCap(F)
+			vx.FaultBudget("ext", F)
+		}
 		drr, err := sess.Encrypt(env.Ctx, []byte{byte(i)})
-		vx.Assert("C04.encrypt_ok_when_store_accepts", err == nil)
+		vx.FaultBudget("ext", 0)
+		faulted := faultsSoFar() > fb
+		if vx.Faulted("ext", "meta.Store") > sb {
+			vx.Reach("C04.store_fault_outside_property")
+			vx.Stop()
+		}
+		vx.Assert("C04.encrypt_ok_when_store_accepts", err == nil || faulted)
 		if err != nil {
+			if faulted {
+				vx.Reach("C04.faulted_encrypt_failed")
+				continue
+			}
 			vx.Stop()
 		}
 		if first == nil {
